@@ -68,8 +68,14 @@ def runs(tier, seed):
     ]
 
 
+_SELF_TESTED = []
+
+
 def begin_shard(st):
-    R.self_test()  # an error here is an oracle failure (inconclusive), never a violation
+    # once per worker process; an error here is an oracle failure (inconclusive), never a violation
+    if not _SELF_TESTED:
+        R.self_test()
+        _SELF_TESTED.append(True)
 
 
 def _h(x):
